@@ -430,4 +430,92 @@ theorem evalS_top_normal : ∀ (n : Nat) (s : Stmt) (F : Frame) (code : LCode) (
           · rfl
           · exact ih _ F code F' hc ρ2 ρ' sig h2
 
+/-! ## `evalS`, one step at a time; fuel monotonicity -/
+
+theorem evalS_expr (n : Nat) (e : Expr) (ρ : Env S) :
+    evalS S (n + 1) (.expr e) ρ =
+      match eval S e ρ with
+      | some (_, ρ1) => .ok (.normal, ρ1)
+      | none => .err := rfl
+
+theorem evalS_seq (n : Nat) (a b : Stmt) (ρ : Env S) :
+    evalS S (n + 1) (.seq a b) ρ = (evalS S n a ρ).andThen (evalS S n b) := rfl
+
+theorem evalS_ite (n : Nat) (c : Expr) (t e : Stmt) (ρ : Env S) :
+    evalS S (n + 1) (.ite c t e) ρ =
+      match eval S c ρ with
+      | some (v, ρ1) => if S.truthy v then evalS S n t ρ1 else evalS S n e ρ1
+      | none => .err := rfl
+
+theorem evalS_ifThen (n : Nat) (c : Expr) (t : Stmt) (ρ : Env S) :
+    evalS S (n + 1) (.ifThen c t) ρ =
+      match eval S c ρ with
+      | some (v, ρ1) => if S.truthy v then evalS S n t ρ1 else .ok (.normal, ρ1)
+      | none => .err := rfl
+
+theorem evalS_loop (n : Nat) (cond : Option (Expr × Bool)) (b : Stmt) (ρ : Env S) :
+    evalS S (n + 1) (.loop cond b) ρ =
+      match evalCond S cond ρ with
+      | some (true, ρ1) => (evalS S n b ρ1).loopNext (evalS S n (.loop cond b))
+      | some (false, ρ1) => .ok (.normal, ρ1)
+      | none => .err := rfl
+
+theorem evalS_brk (n : Nat) (ρ : Env S) : evalS S (n + 1) .brk ρ = .ok (.brk, ρ) := rfl
+theorem evalS_cont (n : Nat) (ρ : Env S) : evalS S (n + 1) .cont ρ = .ok (.cont, ρ) := rfl
+
+/-- more fuel does not change a result of the reference evaluation -/
+theorem evalS_mono : ∀ (n : Nat) (s : Stmt) (ρ : Env S) (r : Sig × Env S),
+    evalS S n s ρ = .ok r → ∀ m, n ≤ m → evalS S m s ρ = .ok r := by
+  intro n
+  induction n with
+  | zero => intro s ρ r h; simp [evalS] at h
+  | succ n ih =>
+    intro s ρ r h m hm
+    obtain ⟨m, rfl⟩ : ∃ m', m = m' + 1 := ⟨m - 1, by omega⟩
+    have hm' : n ≤ m := by omega
+    obtain ⟨sg, ρ'⟩ := r
+    cases s with
+    | expr e => rw [evalS_expr] at h ⊢; exact h
+    | brk => rw [evalS_brk] at h ⊢; exact h
+    | cont => rw [evalS_cont] at h ⊢; exact h
+    | seq a b =>
+      rw [evalS_seq] at h ⊢
+      rcases Res.andThen_ok h with ⟨ρ1, h1, h2⟩ | ⟨hne, h1⟩
+      · rw [Res.andThen_normal (ih a ρ _ h1 m hm')]; exact ih b ρ1 _ h2 m hm'
+      · rw [Res.andThen_abrupt (ih a ρ _ h1 m hm') hne]
+    | ite c t e =>
+      rw [evalS_ite] at h ⊢
+      cases hv : eval S c ρ with
+      | none => simp [hv] at h
+      | some p =>
+        obtain ⟨v, ρ1⟩ := p
+        simp only [hv] at h ⊢
+        by_cases htr : S.truthy v = true
+        · simp only [htr, if_true] at h ⊢; exact ih t ρ1 _ h m hm'
+        · simp only [htr, Bool.false_eq_true, if_false] at h ⊢; exact ih e ρ1 _ h m hm'
+    | ifThen c t =>
+      rw [evalS_ifThen] at h ⊢
+      cases hv : eval S c ρ with
+      | none => simp [hv] at h
+      | some p =>
+        obtain ⟨v, ρ1⟩ := p
+        simp only [hv] at h ⊢
+        by_cases htr : S.truthy v = true
+        · simp only [htr, if_true] at h ⊢; exact ih t ρ1 _ h m hm'
+        · simp only [htr, Bool.false_eq_true, if_false] at h ⊢; exact h
+    | loop cond b =>
+      rw [evalS_loop] at h ⊢
+      cases hcnd : evalCond S cond ρ with
+      | none => simp [hcnd] at h
+      | some p =>
+        obtain ⟨go, ρ1⟩ := p
+        cases go with
+        | false => simp only [hcnd] at h ⊢; exact h
+        | true =>
+          simp only [hcnd] at h ⊢
+          rcases Res.loopNext_ok h with ⟨rfl, h1⟩ | ⟨s, ρ2, hs, h1, h2⟩
+          · rw [Res.loopNext_brk (ih b ρ1 _ h1 m hm')]
+          · rw [Res.loopNext_go (ih b ρ1 _ h1 m hm') hs]
+            exact ih _ ρ2 _ h2 m hm'
+
 end KotoVerif.Compile
